@@ -1,7 +1,17 @@
 
+(** val negb : bool -> bool **)
+
+let negb = function
+| true -> false
+| false -> true
+
 type nat =
 | O
 | S of nat
+
+type ('a, 'b) sum =
+| Inl of 'a
+| Inr of 'b
 
 (** val fst : ('a1 * 'a2) -> 'a1 **)
 
@@ -60,6 +70,23 @@ type z =
 | Z0
 | Zpos of positive
 | Zneg of positive
+
+module Nat =
+ struct
+  (** val leb : nat -> nat -> bool **)
+
+  let rec leb n0 m =
+    match n0 with
+    | O -> true
+    | S n' -> (match m with
+               | O -> false
+               | S m' -> leb n' m')
+
+  (** val ltb : nat -> nat -> bool **)
+
+  let ltb n0 m =
+    leb (S n0) m
+ end
 
 module Pos =
  struct
@@ -574,6 +601,28 @@ module Z =
     let (_, r) = div_eucl a b in r
  end
 
+(** val tl : 'a1 list -> 'a1 list **)
+
+let tl = function
+| [] -> []
+| _ :: m -> m
+
+(** val nth_error : 'a1 list -> nat -> 'a1 option **)
+
+let rec nth_error l = function
+| O -> (match l with
+        | [] -> None
+        | x :: _ -> Some x)
+| S n1 -> (match l with
+           | [] -> None
+           | _ :: l0 -> nth_error l0 n1)
+
+(** val rev : 'a1 list -> 'a1 list **)
+
+let rec rev = function
+| [] -> []
+| x :: l' -> app (rev l') (x :: [])
+
 (** val concat : 'a1 list list -> 'a1 list **)
 
 let rec concat = function
@@ -586,13 +635,89 @@ let rec map f = function
 | [] -> []
 | a :: t -> (f a) :: (map f t)
 
+(** val existsb : ('a1 -> bool) -> 'a1 list -> bool **)
+
+let rec existsb f = function
+| [] -> false
+| a :: l0 -> (||) (f a) (existsb f l0)
+
 (** val forallb : ('a1 -> bool) -> 'a1 list -> bool **)
 
 let rec forallb f = function
 | [] -> true
 | a :: l0 -> (&&) (f a) (forallb f l0)
 
+(** val firstn : nat -> 'a1 list -> 'a1 list **)
+
+let rec firstn n0 l =
+  match n0 with
+  | O -> []
+  | S n1 -> (match l with
+             | [] -> []
+             | a :: l0 -> a :: (firstn n1 l0))
+
+(** val skipn : nat -> 'a1 list -> 'a1 list **)
+
+let rec skipn n0 l =
+  match n0 with
+  | O -> l
+  | S n1 -> (match l with
+             | [] -> []
+             | _ :: l0 -> skipn n1 l0)
+
 type byte = n
+
+(** val list_eqb : n list -> n list -> bool **)
+
+let rec list_eqb a b =
+  match a with
+  | [] -> (match b with
+           | [] -> true
+           | _ :: _ -> false)
+  | x :: a' ->
+    (match b with
+     | [] -> false
+     | y :: b' -> (&&) (N.eqb x y) (list_eqb a' b'))
+
+(** val has_prefix : n list -> n list -> bool **)
+
+let rec has_prefix p l =
+  match p with
+  | [] -> true
+  | x :: p' ->
+    (match l with
+     | [] -> false
+     | y :: l' -> (&&) (N.eqb x y) (has_prefix p' l'))
+
+(** val index_of : n list -> n list -> nat option **)
+
+let rec index_of pat l =
+  if has_prefix pat l
+  then Some O
+  else (match l with
+        | [] -> None
+        | _ :: l' ->
+          (match index_of pat l' with
+           | Some i -> Some (S i)
+           | None -> None))
+
+(** val contains : n list -> n list -> bool **)
+
+let contains pat l =
+  match index_of pat l with
+  | Some _ -> true
+  | None -> false
+
+(** val index_byte : n -> n list -> nat option **)
+
+let rec index_byte b = function
+| [] -> None
+| x :: l' ->
+  if N.eqb x b
+  then Some O
+  else (match index_byte b l' with
+        | Some i -> Some (S i)
+        | None -> None)
 
 (** val escape_leader : n **)
 
@@ -624,6 +749,210 @@ let escape_all_chars =
 
 let escape_all_first_code =
   Npos (XI (XO (XO (XO (XO (XO XH))))))
+
+(** val osc52_prefix : n list **)
+
+let osc52_prefix =
+  (Npos (XI (XI (XO (XI XH))))) :: ((Npos (XI (XO (XI (XI (XI (XO
+    XH))))))) :: ((Npos (XI (XO (XI (XO (XI XH)))))) :: ((Npos (XO (XI (XO
+    (XO (XI XH)))))) :: ((Npos (XI (XI (XO (XI (XI XH)))))) :: []))))
+
+(** val osc52_terms : n list **)
+
+let osc52_terms =
+  (Npos (XI (XI XH))) :: ((Npos (XI (XI (XO (XI XH))))) :: [])
+
+(** val osc52_kind_c : n **)
+
+let osc52_kind_c =
+  Npos (XI (XI (XO (XO (XO (XI XH))))))
+
+(** val osc52_kind_p : n **)
+
+let osc52_kind_p =
+  Npos (XO (XO (XO (XO (XI (XI XH))))))
+
+(** val osc52_sep : n **)
+
+let osc52_sep =
+  Npos (XI (XI (XO (XI (XI XH)))))
+
+(** val osc52_limit : n **)
+
+let osc52_limit =
+  Npos (XO (XO (XO (XO (XO (XI (XO (XI (XO (XI (XI (XO (XO (XO (XO (XI
+    XH))))))))))))))))
+
+(** val osc52_hdr_skip : n **)
+
+let osc52_hdr_skip =
+  Npos (XI (XO XH))
+
+(** val osc52_kind_len : n **)
+
+let osc52_kind_len =
+  Npos (XO XH)
+
+(** val osc52_b64_ranges : (n * n) list **)
+
+let osc52_b64_ranges =
+  ((Npos (XI (XO (XO (XO (XO (XO XH))))))), (Npos (XO (XI (XO (XI (XI (XO
+    XH)))))))) :: (((Npos (XI (XO (XO (XO (XO (XI XH))))))), (Npos (XO (XI
+    (XO (XI (XI (XI XH)))))))) :: (((Npos (XO (XO (XO (XO (XI XH)))))), (Npos
+    (XI (XO (XO (XI (XI XH))))))) :: (((Npos (XI (XI (XO (XI (XO XH)))))),
+    (Npos (XI (XI (XO (XI (XO XH))))))) :: (((Npos (XI (XI (XI (XI (XO
+    XH)))))), (Npos (XI (XI (XI (XI (XO XH))))))) :: (((Npos (XI (XO (XI (XI
+    (XI XH)))))), (Npos (XI (XO (XI (XI (XI XH))))))) :: [])))))
+
+(** val drag_paste_probe : n list **)
+
+let drag_paste_probe =
+  (Npos (XI (XI (XO (XI XH))))) :: ((Npos (XI (XI (XO (XI (XI (XO
+    XH))))))) :: ((Npos (XO (XI (XO (XO (XI XH)))))) :: ((Npos (XO (XO (XO
+    (XO (XI XH)))))) :: [])))
+
+(** val drag_paste_begin : n list **)
+
+let drag_paste_begin =
+  (Npos (XI (XI (XO (XI XH))))) :: ((Npos (XI (XI (XO (XI (XI (XO
+    XH))))))) :: ((Npos (XO (XI (XO (XO (XI XH)))))) :: ((Npos (XO (XO (XO
+    (XO (XI XH)))))) :: ((Npos (XO (XO (XO (XO (XI XH)))))) :: ((Npos (XO (XI
+    (XI (XI (XI (XI XH))))))) :: [])))))
+
+(** val drag_paste_end : n list **)
+
+let drag_paste_end =
+  (Npos (XI (XI (XO (XI XH))))) :: ((Npos (XI (XI (XO (XI (XI (XO
+    XH))))))) :: ((Npos (XO (XI (XO (XO (XI XH)))))) :: ((Npos (XO (XO (XO
+    (XO (XI XH)))))) :: ((Npos (XI (XO (XO (XO (XI XH)))))) :: ((Npos (XO (XI
+    (XI (XI (XI (XI XH))))))) :: [])))))
+
+(** val drag_paste_minlen : n **)
+
+let drag_paste_minlen =
+  Npos (XI (XO XH))
+
+(** val drag_quote : n **)
+
+let drag_quote =
+  Npos (XI (XI (XI (XO (XO XH)))))
+
+(** val drag_slash : n **)
+
+let drag_slash =
+  Npos (XI (XI (XI (XI (XO XH)))))
+
+(** val drag_space : n **)
+
+let drag_space =
+  Npos (XO (XO (XO (XO (XO XH)))))
+
+(** val drag_min_len : n **)
+
+let drag_min_len =
+  Npos (XI XH)
+
+(** val trace_enable_marker : n list **)
+
+let trace_enable_marker =
+  (Npos (XO (XO (XI (XI (XI XH)))))) :: ((Npos (XI (XO (XI (XO (XO (XO
+    XH))))))) :: ((Npos (XO (XI (XI (XI (XO (XO XH))))))) :: ((Npos (XI (XO
+    (XO (XO (XO (XO XH))))))) :: ((Npos (XO (XI (XO (XO (XO (XO
+    XH))))))) :: ((Npos (XO (XO (XI (XI (XO (XO XH))))))) :: ((Npos (XI (XO
+    (XI (XO (XO (XO XH))))))) :: ((Npos (XI (XI (XI (XI (XI (XO
+    XH))))))) :: ((Npos (XO (XO (XI (XO (XI (XO XH))))))) :: ((Npos (XO (XI
+    (XO (XO (XI (XO XH))))))) :: ((Npos (XO (XI (XO (XI (XI (XO
+    XH))))))) :: ((Npos (XI (XI (XO (XO (XI (XO XH))))))) :: ((Npos (XO (XI
+    (XO (XI (XI (XO XH))))))) :: ((Npos (XI (XI (XI (XI (XI (XO
+    XH))))))) :: ((Npos (XO (XO (XI (XO (XI (XO XH))))))) :: ((Npos (XO (XI
+    (XO (XO (XI (XO XH))))))) :: ((Npos (XI (XO (XO (XO (XO (XO
+    XH))))))) :: ((Npos (XI (XI (XO (XO (XO (XO XH))))))) :: ((Npos (XI (XO
+    (XI (XO (XO (XO XH))))))) :: ((Npos (XI (XI (XI (XI (XI (XO
+    XH))))))) :: ((Npos (XO (XO (XI (XI (XO (XO XH))))))) :: ((Npos (XI (XI
+    (XI (XI (XO (XO XH))))))) :: ((Npos (XI (XI (XI (XO (XO (XO
+    XH))))))) :: ((Npos (XO (XI (XI (XI (XI
+    XH)))))) :: [])))))))))))))))))))))))
+
+(** val trace_disable_marker : n list **)
+
+let trace_disable_marker =
+  (Npos (XO (XO (XI (XI (XI XH)))))) :: ((Npos (XO (XO (XI (XO (XO (XO
+    XH))))))) :: ((Npos (XI (XO (XO (XI (XO (XO XH))))))) :: ((Npos (XI (XI
+    (XO (XO (XI (XO XH))))))) :: ((Npos (XI (XO (XO (XO (XO (XO
+    XH))))))) :: ((Npos (XO (XI (XO (XO (XO (XO XH))))))) :: ((Npos (XO (XO
+    (XI (XI (XO (XO XH))))))) :: ((Npos (XI (XO (XI (XO (XO (XO
+    XH))))))) :: ((Npos (XI (XI (XI (XI (XI (XO XH))))))) :: ((Npos (XO (XO
+    (XI (XO (XI (XO XH))))))) :: ((Npos (XO (XI (XO (XO (XI (XO
+    XH))))))) :: ((Npos (XO (XI (XO (XI (XI (XO XH))))))) :: ((Npos (XI (XI
+    (XO (XO (XI (XO XH))))))) :: ((Npos (XO (XI (XO (XI (XI (XO
+    XH))))))) :: ((Npos (XI (XI (XI (XI (XI (XO XH))))))) :: ((Npos (XO (XO
+    (XI (XO (XI (XO XH))))))) :: ((Npos (XO (XI (XO (XO (XI (XO
+    XH))))))) :: ((Npos (XI (XO (XO (XO (XO (XO XH))))))) :: ((Npos (XI (XI
+    (XO (XO (XO (XO XH))))))) :: ((Npos (XI (XO (XI (XO (XO (XO
+    XH))))))) :: ((Npos (XI (XI (XI (XI (XI (XO XH))))))) :: ((Npos (XO (XO
+    (XI (XI (XO (XO XH))))))) :: ((Npos (XI (XI (XI (XI (XO (XO
+    XH))))))) :: ((Npos (XI (XI (XI (XO (XO (XO XH))))))) :: ((Npos (XO (XI
+    (XI (XI (XI XH)))))) :: []))))))))))))))))))))))))
+
+(** val show_cursor_seq : n list **)
+
+let show_cursor_seq =
+  (Npos (XI (XI (XO (XI XH))))) :: ((Npos (XI (XI (XO (XI (XI (XO
+    XH))))))) :: ((Npos (XI (XI (XI (XI (XI XH)))))) :: ((Npos (XO (XI (XO
+    (XO (XI XH)))))) :: ((Npos (XI (XO (XI (XO (XI XH)))))) :: ((Npos (XO (XO
+    (XO (XI (XO (XI XH))))))) :: [])))))
+
+(** val hide_cursor_seq : n list **)
+
+let hide_cursor_seq =
+  (Npos (XI (XI (XO (XI XH))))) :: ((Npos (XI (XI (XO (XI (XI (XO
+    XH))))))) :: ((Npos (XI (XI (XI (XI (XI XH)))))) :: ((Npos (XO (XI (XO
+    (XO (XI XH)))))) :: ((Npos (XI (XO (XI (XO (XI XH)))))) :: ((Npos (XO (XO
+    (XI (XI (XO (XI XH))))))) :: [])))))
+
+(** val drag_default_cmd : n list **)
+
+let drag_default_cmd =
+  (Npos (XO (XO (XI (XO (XI (XI XH))))))) :: ((Npos (XO (XI (XO (XO (XI (XI
+    XH))))))) :: ((Npos (XO (XI (XO (XI (XI (XI XH))))))) :: []))
+
+(** val drag_dir_flag : n list **)
+
+let drag_dir_flag =
+  (Npos (XO (XO (XO (XO (XO XH)))))) :: ((Npos (XI (XO (XI (XI (XO
+    XH)))))) :: ((Npos (XO (XO (XI (XO (XO (XI XH))))))) :: []))
+
+(** val drag_cmd_end : n list **)
+
+let drag_cmd_end =
+  (Npos (XI (XO (XI XH)))) :: []
+
+(** val drag_interrupt_byte : n **)
+
+let drag_interrupt_byte =
+  Npos (XI XH)
+
+(** val skip_trim_cutset : n list **)
+
+let skip_trim_cutset =
+  (Npos (XI (XO (XI XH)))) :: ((Npos (XO (XI (XO XH)))) :: [])
+
+(** val skip_echo_repl : n list **)
+
+let skip_echo_repl =
+  (Npos (XI (XO (XI XH)))) :: ((Npos (XO (XI (XO XH)))) :: [])
+
+(** val vt100_esc : n **)
+
+let vt100_esc =
+  Npos (XI (XI (XO (XI XH))))
+
+(** val vt100_end_ranges : (n * n) list **)
+
+let vt100_end_ranges =
+  ((Npos (XI (XO (XO (XO (XO (XI XH))))))), (Npos (XO (XI (XO (XI (XI (XI
+    XH)))))))) :: (((Npos (XI (XO (XO (XO (XO (XO XH))))))), (Npos (XO (XI
+    (XO (XI (XI (XO XH)))))))) :: [])
 
 (** val leader : byte **)
 
@@ -843,3 +1172,792 @@ let builtin_table escape_all =
   match table_of_json (builtin_json escape_all) with
   | Some t -> t
   | None -> []
+
+type chunk = n list
+
+type path = n list
+
+type kind =
+| KDir
+| KRegular
+| KOther
+
+(** val in_ranges : (n * n) list -> n -> bool **)
+
+let in_ranges rs b =
+  existsb (fun r -> (&&) (N.leb (fst r) b) (N.leb b (snd r))) rs
+
+(** val index_any : n list -> n list -> nat option **)
+
+let rec index_any set = function
+| [] -> None
+| x :: l' ->
+  if existsb (N.eqb x) set
+  then Some O
+  else (match index_any set l' with
+        | Some i -> Some (S i)
+        | None -> None)
+
+(** val replace_all_f : nat -> n list -> n list -> n list -> n list **)
+
+let rec replace_all_f fuel pat rep l =
+  match fuel with
+  | O -> l
+  | S f ->
+    (match l with
+     | [] -> []
+     | x :: l' ->
+       if has_prefix pat l
+       then app rep (replace_all_f f pat rep (skipn (length pat) l))
+       else x :: (replace_all_f f pat rep l'))
+
+(** val replace_all : n list -> n list -> n list -> n list **)
+
+let replace_all pat rep l =
+  replace_all_f (length l) pat rep l
+
+(** val trim_vt100_f : bool -> n list -> n list **)
+
+let rec trim_vt100_f skip = function
+| [] -> []
+| c :: l' ->
+  if skip
+  then trim_vt100_f (negb (in_ranges vt100_end_ranges c)) l'
+  else if N.eqb c vt100_esc
+       then trim_vt100_f true l'
+       else c :: (trim_vt100_f false l')
+
+(** val trim_vt100 : n list -> n list **)
+
+let trim_vt100 l =
+  trim_vt100_f false l
+
+(** val trim_right : n list -> n list -> n list **)
+
+let rec trim_right cut = function
+| [] -> []
+| x :: l' ->
+  (match trim_right cut l' with
+   | [] -> if existsb (N.eqb x) cut then [] else x :: []
+   | n0 :: l0 -> x :: (n0 :: l0))
+
+(** val osc52_bad_b64 : n list -> bool **)
+
+let osc52_bad_b64 l =
+  existsb (fun b -> negb (in_ranges osc52_b64_ranges b)) l
+
+(** val osc52_header : nat -> n list -> n list option **)
+
+let rec osc52_header fuel buf =
+  match fuel with
+  | O -> None
+  | S f ->
+    (match index_of osc52_prefix buf with
+     | Some pos ->
+       let b = skipn (add pos (N.to_nat osc52_hdr_skip)) buf in
+       if Nat.ltb (length b) (N.to_nat osc52_kind_len)
+       then None
+       else (match b with
+             | [] -> None
+             | k :: l ->
+               (match l with
+                | [] -> None
+                | s :: _ ->
+                  if (&&)
+                       ((||) (N.eqb k osc52_kind_c) (N.eqb k osc52_kind_p))
+                       (N.eqb s osc52_sep)
+                  then Some (skipn (N.to_nat osc52_kind_len) b)
+                  else osc52_header f (skipn (N.to_nat osc52_kind_len) b)))
+     | None -> None)
+
+(** val osc52_loop :
+    nat -> n list option -> n list -> n list list -> n list option * n list
+    list **)
+
+let rec osc52_loop fuel seq buf clips =
+  match fuel with
+  | O -> (seq, clips)
+  | S f ->
+    (match buf with
+     | [] -> (seq, clips)
+     | _ :: _ ->
+       (match seq with
+        | Some sq ->
+          (match index_any osc52_terms buf with
+           | Some pos ->
+             osc52_loop f None (skipn (S pos) buf)
+               (app clips ((app sq (firstn pos buf)) :: []))
+           | None ->
+             let sq' = app sq buf in
+             if (&&) (N.ltb osc52_limit (N.of_nat (length sq')))
+                  (osc52_bad_b64 buf)
+             then (None, clips)
+             else ((Some sq'), clips))
+        | None ->
+          (match osc52_header (S (length buf)) buf with
+           | Some b ->
+             (match index_any osc52_terms b with
+              | Some pos ->
+                osc52_loop f None (skipn (S pos) b)
+                  (app clips ((firstn pos b) :: []))
+              | None -> ((Some b), clips))
+           | None -> (None, clips))))
+
+(** val detect_osc52 :
+    n list option -> n list -> n list option * n list list **)
+
+let detect_osc52 seq buf =
+  osc52_loop (S (length buf)) seq buf []
+
+type dres = { d_files : (path list * bool) option; d_ignore : bool;
+              d_win : bool }
+
+(** val strip_paste : n list -> n list option **)
+
+let strip_paste buf =
+  if (&&) (Nat.ltb (N.to_nat drag_paste_minlen) (length buf))
+       (contains drag_paste_probe buf)
+  then let b =
+         replace_all drag_paste_end [] (replace_all drag_paste_begin [] buf)
+       in
+       (match b with
+        | [] -> None
+        | _ :: _ -> Some b)
+  else Some buf
+
+(** val next_linux_path : n list -> (path * nat) option **)
+
+let next_linux_path buf =
+  if Nat.ltb (length buf) (N.to_nat drag_min_len)
+  then None
+  else (match buf with
+        | [] -> None
+        | q :: l ->
+          (match l with
+           | [] -> None
+           | s :: _ ->
+             if (&&) (N.eqb q drag_quote) (N.eqb s drag_slash)
+             then (match index_byte drag_quote (tl buf) with
+                   | Some i ->
+                     (match nth_error buf (S (S i)) with
+                      | Some c ->
+                        if N.eqb c drag_space
+                        then Some ((firstn i (tl buf)), (add i (S (S (S O)))))
+                        else None
+                      | None -> None)
+                   | None -> None)
+             else if N.eqb q drag_slash
+                  then (match index_byte drag_space buf with
+                        | Some i -> Some ((firstn i buf), (S i))
+                        | None -> None)
+                  else None))
+
+(** val file_path_ok : (path -> kind option) -> path -> bool option **)
+
+let file_path_ok exists_ p =
+  match exists_ p with
+  | Some k ->
+    (match k with
+     | KDir -> Some true
+     | KRegular -> Some false
+     | KOther -> None)
+  | None -> None
+
+(** val linux_loop :
+    (path -> kind option) -> nat -> n list -> path list -> bool -> (path
+    list * bool) option **)
+
+let rec linux_loop exists_ fuel rest acc has_dir =
+  match fuel with
+  | O -> None
+  | S f ->
+    (match rest with
+     | [] -> Some ((rev acc), has_dir)
+     | _ :: _ ->
+       (match next_linux_path rest with
+        | Some p0 ->
+          let (p, i) = p0 in
+          (match p with
+           | [] -> None
+           | _ :: _ ->
+             (match file_path_ok exists_ p with
+              | Some d ->
+                linux_loop exists_ f (skipn i rest) (p :: acc)
+                  ((||) has_dir d)
+              | None -> None))
+        | None -> None))
+
+(** val last_is : n -> n list -> bool **)
+
+let last_is b l =
+  match rev l with
+  | [] -> false
+  | x :: _ -> N.eqb x b
+
+(** val detect_drag_files_on_linux :
+    (path -> kind option) -> n list -> (path list * bool) option **)
+
+let detect_drag_files_on_linux exists_ buf =
+  if Nat.ltb (length buf) (N.to_nat drag_min_len)
+  then None
+  else (match buf with
+        | [] -> None
+        | q :: l ->
+          (match l with
+           | [] -> None
+           | s :: _ ->
+             if (&&)
+                  ((||) ((&&) (N.eqb q drag_quote) (N.eqb s drag_slash))
+                    (N.eqb q drag_slash)) (last_is drag_space buf)
+             then linux_loop exists_ (S (length buf)) buf [] false
+             else None))
+
+(** val detect_drag_linux : (path -> kind option) -> n list -> dres **)
+
+let detect_drag_linux exists_ buf =
+  match strip_paste buf with
+  | Some b ->
+    { d_files = (detect_drag_files_on_linux exists_ b); d_ignore = false;
+      d_win = false }
+  | None -> { d_files = None; d_ignore = true; d_win = false }
+
+type opts = { o_drag : bool; o_trace : bool; o_zmodem : bool; o_osc52 : 
+              bool; o_cmd : n list; o_cmd_not_trz : bool }
+
+type dphase =
+| DWait
+| DInterrupt
+| DCmd
+
+type hphase =
+| HChoosing
+| HOwning
+
+type haction =
+| HIo of n list * n list
+| HTakeDrag
+| HRefuse
+| HFailEarly
+| HAccept
+| HDone
+| HError
+| HStop
+| HBackground
+
+type obs =
+| ToTerm of n list
+| ToServer of n list
+| Clip of n list
+
+type ('dstate, 'zstate) state = { transfer : bool; zmodem : 'zstate option;
+                                  prompt : bool; prompts : bool;
+                                  trace_on : bool; interrupting : bool;
+                                  skip_cmd : bool; cur_cmd : n list option;
+                                  osc : n list option; detect_on : bool;
+                                  dragging : bool; drag_has_dir : bool;
+                                  drag_files : path list option;
+                                  held : n list option; det : 'dstate;
+                                  drag_procs : dphase list;
+                                  handlers : hphase list }
+
+(** val init : 'a1 -> ('a1, 'a2) state **)
+
+let init d =
+  { transfer = false; zmodem = None; prompt = false; prompts = false;
+    trace_on = false; interrupting = false; skip_cmd = false; cur_cmd = None;
+    osc = None; detect_on = false; dragging = false; drag_has_dir = false;
+    drag_files = None; held = None; det = d; drag_procs = []; handlers = [] }
+
+(** val set_transfer : bool -> ('a1, 'a2) state -> ('a1, 'a2) state **)
+
+let set_transfer v s =
+  { transfer = v; zmodem = s.zmodem; prompt = s.prompt; prompts = s.prompts;
+    trace_on = s.trace_on; interrupting = s.interrupting; skip_cmd =
+    s.skip_cmd; cur_cmd = s.cur_cmd; osc = s.osc; detect_on = s.detect_on;
+    dragging = s.dragging; drag_has_dir = s.drag_has_dir; drag_files =
+    s.drag_files; held = s.held; det = s.det; drag_procs = s.drag_procs;
+    handlers = s.handlers }
+
+(** val set_zmodem : 'a2 option -> ('a1, 'a2) state -> ('a1, 'a2) state **)
+
+let set_zmodem v s =
+  { transfer = s.transfer; zmodem = v; prompt = s.prompt; prompts =
+    s.prompts; trace_on = s.trace_on; interrupting = s.interrupting;
+    skip_cmd = s.skip_cmd; cur_cmd = s.cur_cmd; osc = s.osc; detect_on =
+    s.detect_on; dragging = s.dragging; drag_has_dir = s.drag_has_dir;
+    drag_files = s.drag_files; held = s.held; det = s.det; drag_procs =
+    s.drag_procs; handlers = s.handlers }
+
+(** val set_prompt : bool -> ('a1, 'a2) state -> ('a1, 'a2) state **)
+
+let set_prompt v s =
+  { transfer = s.transfer; zmodem = s.zmodem; prompt = v; prompts =
+    s.prompts; trace_on = s.trace_on; interrupting = s.interrupting;
+    skip_cmd = s.skip_cmd; cur_cmd = s.cur_cmd; osc = s.osc; detect_on =
+    s.detect_on; dragging = s.dragging; drag_has_dir = s.drag_has_dir;
+    drag_files = s.drag_files; held = s.held; det = s.det; drag_procs =
+    s.drag_procs; handlers = s.handlers }
+
+(** val set_prompts : bool -> ('a1, 'a2) state -> ('a1, 'a2) state **)
+
+let set_prompts v s =
+  { transfer = s.transfer; zmodem = s.zmodem; prompt = s.prompt; prompts = v;
+    trace_on = s.trace_on; interrupting = s.interrupting; skip_cmd =
+    s.skip_cmd; cur_cmd = s.cur_cmd; osc = s.osc; detect_on = s.detect_on;
+    dragging = s.dragging; drag_has_dir = s.drag_has_dir; drag_files =
+    s.drag_files; held = s.held; det = s.det; drag_procs = s.drag_procs;
+    handlers = s.handlers }
+
+(** val set_trace_on : bool -> ('a1, 'a2) state -> ('a1, 'a2) state **)
+
+let set_trace_on v s =
+  { transfer = s.transfer; zmodem = s.zmodem; prompt = s.prompt; prompts =
+    s.prompts; trace_on = v; interrupting = s.interrupting; skip_cmd =
+    s.skip_cmd; cur_cmd = s.cur_cmd; osc = s.osc; detect_on = s.detect_on;
+    dragging = s.dragging; drag_has_dir = s.drag_has_dir; drag_files =
+    s.drag_files; held = s.held; det = s.det; drag_procs = s.drag_procs;
+    handlers = s.handlers }
+
+(** val set_interrupting : bool -> ('a1, 'a2) state -> ('a1, 'a2) state **)
+
+let set_interrupting v s =
+  { transfer = s.transfer; zmodem = s.zmodem; prompt = s.prompt; prompts =
+    s.prompts; trace_on = s.trace_on; interrupting = v; skip_cmd =
+    s.skip_cmd; cur_cmd = s.cur_cmd; osc = s.osc; detect_on = s.detect_on;
+    dragging = s.dragging; drag_has_dir = s.drag_has_dir; drag_files =
+    s.drag_files; held = s.held; det = s.det; drag_procs = s.drag_procs;
+    handlers = s.handlers }
+
+(** val set_skip_cmd : bool -> ('a1, 'a2) state -> ('a1, 'a2) state **)
+
+let set_skip_cmd v s =
+  { transfer = s.transfer; zmodem = s.zmodem; prompt = s.prompt; prompts =
+    s.prompts; trace_on = s.trace_on; interrupting = s.interrupting;
+    skip_cmd = v; cur_cmd = s.cur_cmd; osc = s.osc; detect_on = s.detect_on;
+    dragging = s.dragging; drag_has_dir = s.drag_has_dir; drag_files =
+    s.drag_files; held = s.held; det = s.det; drag_procs = s.drag_procs;
+    handlers = s.handlers }
+
+(** val set_cur_cmd :
+    n list option -> ('a1, 'a2) state -> ('a1, 'a2) state **)
+
+let set_cur_cmd v s =
+  { transfer = s.transfer; zmodem = s.zmodem; prompt = s.prompt; prompts =
+    s.prompts; trace_on = s.trace_on; interrupting = s.interrupting;
+    skip_cmd = s.skip_cmd; cur_cmd = v; osc = s.osc; detect_on = s.detect_on;
+    dragging = s.dragging; drag_has_dir = s.drag_has_dir; drag_files =
+    s.drag_files; held = s.held; det = s.det; drag_procs = s.drag_procs;
+    handlers = s.handlers }
+
+(** val set_osc : n list option -> ('a1, 'a2) state -> ('a1, 'a2) state **)
+
+let set_osc v s =
+  { transfer = s.transfer; zmodem = s.zmodem; prompt = s.prompt; prompts =
+    s.prompts; trace_on = s.trace_on; interrupting = s.interrupting;
+    skip_cmd = s.skip_cmd; cur_cmd = s.cur_cmd; osc = v; detect_on =
+    s.detect_on; dragging = s.dragging; drag_has_dir = s.drag_has_dir;
+    drag_files = s.drag_files; held = s.held; det = s.det; drag_procs =
+    s.drag_procs; handlers = s.handlers }
+
+(** val set_detect_on : bool -> ('a1, 'a2) state -> ('a1, 'a2) state **)
+
+let set_detect_on v s =
+  { transfer = s.transfer; zmodem = s.zmodem; prompt = s.prompt; prompts =
+    s.prompts; trace_on = s.trace_on; interrupting = s.interrupting;
+    skip_cmd = s.skip_cmd; cur_cmd = s.cur_cmd; osc = s.osc; detect_on = v;
+    dragging = s.dragging; drag_has_dir = s.drag_has_dir; drag_files =
+    s.drag_files; held = s.held; det = s.det; drag_procs = s.drag_procs;
+    handlers = s.handlers }
+
+(** val set_drag :
+    bool -> bool -> path list option -> ('a1, 'a2) state -> ('a1, 'a2) state **)
+
+let set_drag dg hd fs s =
+  { transfer = s.transfer; zmodem = s.zmodem; prompt = s.prompt; prompts =
+    s.prompts; trace_on = s.trace_on; interrupting = s.interrupting;
+    skip_cmd = s.skip_cmd; cur_cmd = s.cur_cmd; osc = s.osc; detect_on =
+    s.detect_on; dragging = dg; drag_has_dir = hd; drag_files = fs; held =
+    s.held; det = s.det; drag_procs = s.drag_procs; handlers = s.handlers }
+
+(** val set_held : n list option -> ('a1, 'a2) state -> ('a1, 'a2) state **)
+
+let set_held v s =
+  { transfer = s.transfer; zmodem = s.zmodem; prompt = s.prompt; prompts =
+    s.prompts; trace_on = s.trace_on; interrupting = s.interrupting;
+    skip_cmd = s.skip_cmd; cur_cmd = s.cur_cmd; osc = s.osc; detect_on =
+    s.detect_on; dragging = s.dragging; drag_has_dir = s.drag_has_dir;
+    drag_files = s.drag_files; held = v; det = s.det; drag_procs =
+    s.drag_procs; handlers = s.handlers }
+
+(** val set_det : 'a1 -> ('a1, 'a2) state -> ('a1, 'a2) state **)
+
+let set_det v s =
+  { transfer = s.transfer; zmodem = s.zmodem; prompt = s.prompt; prompts =
+    s.prompts; trace_on = s.trace_on; interrupting = s.interrupting;
+    skip_cmd = s.skip_cmd; cur_cmd = s.cur_cmd; osc = s.osc; detect_on =
+    s.detect_on; dragging = s.dragging; drag_has_dir = s.drag_has_dir;
+    drag_files = s.drag_files; held = s.held; det = v; drag_procs =
+    s.drag_procs; handlers = s.handlers }
+
+(** val set_drag_procs :
+    dphase list -> ('a1, 'a2) state -> ('a1, 'a2) state **)
+
+let set_drag_procs v s =
+  { transfer = s.transfer; zmodem = s.zmodem; prompt = s.prompt; prompts =
+    s.prompts; trace_on = s.trace_on; interrupting = s.interrupting;
+    skip_cmd = s.skip_cmd; cur_cmd = s.cur_cmd; osc = s.osc; detect_on =
+    s.detect_on; dragging = s.dragging; drag_has_dir = s.drag_has_dir;
+    drag_files = s.drag_files; held = s.held; det = s.det; drag_procs = v;
+    handlers = s.handlers }
+
+(** val set_handlers : hphase list -> ('a1, 'a2) state -> ('a1, 'a2) state **)
+
+let set_handlers v s =
+  { transfer = s.transfer; zmodem = s.zmodem; prompt = s.prompt; prompts =
+    s.prompts; trace_on = s.trace_on; interrupting = s.interrupting;
+    skip_cmd = s.skip_cmd; cur_cmd = s.cur_cmd; osc = s.osc; detect_on =
+    s.detect_on; dragging = s.dragging; drag_has_dir = s.drag_has_dir;
+    drag_files = s.drag_files; held = s.held; det = s.det; drag_procs =
+    s.drag_procs; handlers = v }
+
+(** val reset_drag : ('a1, 'a2) state -> ('a1, 'a2) state **)
+
+let reset_drag s =
+  if s.dragging then set_drag false false None s else s
+
+(** val add_drag :
+    path list -> bool -> ('a1, 'a2) state -> ('a1, 'a2) state **)
+
+let add_drag fs hd s =
+  let hd' = if hd then true else s.drag_has_dir in
+  (match s.drag_files with
+   | Some old -> set_drag true hd' (Some (app old fs)) s
+   | None ->
+     set_drag_procs (app s.drag_procs (DWait :: []))
+       (set_drag true hd' (Some fs) s))
+
+(** val trace_log :
+    n list -> n list -> opts -> ('a1, 'a2) state -> n list -> n list * ('a1,
+    'a2) state **)
+
+let trace_log msg_on msg_off o s buf =
+  if o.o_trace
+  then if s.trace_on
+       then if contains trace_disable_marker buf
+            then ((replace_all trace_disable_marker msg_off buf),
+                   (set_trace_on false s))
+            else (buf, s)
+       else if contains trace_enable_marker buf
+            then ((replace_all trace_enable_marker msg_on buf),
+                   (set_trace_on true s))
+            else (buf, s)
+  else (buf, s)
+
+(** val drag_command : opts -> ('a1, 'a2) state -> n list **)
+
+let drag_command o s =
+  app (match o.o_cmd with
+       | [] -> drag_default_cmd
+       | n0 :: l -> n0 :: l)
+    (if (&&) s.drag_has_dir (negb o.o_cmd_not_trz) then drag_dir_flag else [])
+
+(** val out_step :
+    ('a1 -> n list -> (n list * 'a2 option) * 'a1) -> ('a2 -> bool) -> (n
+    list -> bool) -> (n list -> 'a3) -> ('a3 -> n list -> bool * 'a3) -> n
+    list -> n list -> opts -> ('a1, 'a3) state -> n list -> ('a1, 'a3)
+    state * obs list **)
+
+let out_step detect trig_prompts zmodem_detect zm_init zm_handle msg_on msg_off o s buf0 =
+  if s.transfer
+  then (s, [])
+  else let (buf, s0) = trace_log msg_on msg_off o s buf0 in
+       let zres =
+         if o.o_zmodem
+         then (match s0.zmodem with
+               | Some z0 ->
+                 let (h, z') = zm_handle z0 buf in
+                 if h
+                 then Inl (set_zmodem (Some z') s0)
+                 else Inr ((set_zmodem None s0), ((ToTerm
+                        show_cursor_seq) :: []))
+               | None -> Inr (s0, []))
+         else Inr (s0, [])
+       in
+       (match zres with
+        | Inl s' -> (s', [])
+        | Inr p ->
+          let (s1, pre) = p in
+          if o.o_osc52
+          then let (q, cl) = detect_osc52 s1.osc buf in
+               let s2 = set_osc q s1 in
+               let clips = map (fun x -> Clip x) cl in
+               let pre0 = app pre clips in
+               let (p0, d') = detect s2.det buf in
+               let (buf1, trig) = p0 in
+               let s3 = set_det d' s2 in
+               (match trig with
+                | Some t ->
+                  ((set_handlers (app s3.handlers (HChoosing :: []))
+                     (set_prompts (trig_prompts t) s3)),
+                    (app pre0 ((ToTerm buf1) :: [])))
+                | None ->
+                  if s3.interrupting
+                  then (s3, pre0)
+                  else let skip = s3.skip_cmd in
+                       let s4 = if skip then set_skip_cmd false s3 else s3 in
+                       if (&&) skip
+                            (match s4.cur_cmd with
+                             | Some c ->
+                               list_eqb c
+                                 (trim_right skip_trim_cutset
+                                   (trim_vt100 buf1))
+                             | None -> false)
+                       then (s4, (app pre0 ((ToTerm skip_echo_repl) :: [])))
+                       else if (&&) o.o_zmodem (zmodem_detect buf1)
+                            then (match s4.zmodem with
+                                  | Some _ ->
+                                    (s4,
+                                      (app pre0 ((ToTerm buf1) :: ((ToTerm
+                                        buf1) :: []))))
+                                  | None ->
+                                    ((set_zmodem (Some (zm_init buf1)) s4),
+                                      (app pre0 ((ToTerm buf1) :: ((ToTerm
+                                        hide_cursor_seq) :: [])))))
+                            else (s4, (app pre0 ((ToTerm buf1) :: []))))
+          else let clips = [] in
+               let pre0 = app pre clips in
+               let (p0, d') = detect s1.det buf in
+               let (buf1, trig) = p0 in
+               let s2 = set_det d' s1 in
+               (match trig with
+                | Some t ->
+                  ((set_handlers (app s2.handlers (HChoosing :: []))
+                     (set_prompts (trig_prompts t) s2)),
+                    (app pre0 ((ToTerm buf1) :: [])))
+                | None ->
+                  if s2.interrupting
+                  then (s2, pre0)
+                  else let skip = s2.skip_cmd in
+                       let s3 = if skip then set_skip_cmd false s2 else s2 in
+                       if (&&) skip
+                            (match s3.cur_cmd with
+                             | Some c ->
+                               list_eqb c
+                                 (trim_right skip_trim_cutset
+                                   (trim_vt100 buf1))
+                             | None -> false)
+                       then (s3, (app pre0 ((ToTerm skip_echo_repl) :: [])))
+                       else if (&&) o.o_zmodem (zmodem_detect buf1)
+                            then (match s3.zmodem with
+                                  | Some _ ->
+                                    (s3,
+                                      (app pre0 ((ToTerm buf1) :: ((ToTerm
+                                        buf1) :: []))))
+                                  | None ->
+                                    ((set_zmodem (Some (zm_init buf1)) s3),
+                                      (app pre0 ((ToTerm buf1) :: ((ToTerm
+                                        hide_cursor_seq) :: [])))))
+                            else (s3, (app pre0 ((ToTerm buf1) :: [])))))
+
+(** val drag_verdict :
+    (n list -> dres) -> bool -> ('a1, 'a2) state -> n list -> ('a1, 'a2)
+    state * obs list **)
+
+let drag_verdict drag_detect timer s buf =
+  let r = drag_detect buf in
+  (match r.d_files with
+   | Some p -> let (fs, hd) = p in ((add_drag fs hd s), [])
+   | None ->
+     if (&&) (negb timer) r.d_win
+     then ((set_held (Some buf) s), [])
+     else ((if r.d_ignore then s else reset_drag s), ((ToServer buf) :: [])))
+
+(** val in_step :
+    ('a2 -> bool) -> ('a2 -> 'a2) -> (n list -> dres) -> (n list -> bool) ->
+    opts -> ('a1, 'a2) state -> n list -> ('a1, 'a2) state * obs list **)
+
+let in_step zm_busy zm_stop drag_detect is_stop_key o s buf =
+  if s.prompt
+  then (s, [])
+  else if s.transfer
+       then ((if (&&) (is_stop_key buf) s.prompts
+              then set_prompt true s
+              else s), [])
+       else let s0 =
+              if o.o_zmodem
+              then (match s.zmodem with
+                    | Some z0 ->
+                      if list_eqb buf (drag_interrupt_byte :: [])
+                      then set_zmodem (Some (zm_stop z0)) s
+                      else s
+                    | None -> s)
+              else s
+            in
+            if (&&) o.o_zmodem
+                 (match s0.zmodem with
+                  | Some z0 -> zm_busy z0
+                  | None -> false)
+            then (s0, [])
+            else if s0.detect_on
+                 then (match s0.held with
+                       | Some b -> ((set_held (Some (app b buf)) s0), [])
+                       | None -> drag_verdict drag_detect false s0 buf)
+                 else (s0, ((ToServer buf) :: []))
+
+(** val hold_timer :
+    (n list -> dres) -> ('a1, 'a2) state -> ('a1, 'a2) state * obs list **)
+
+let hold_timer drag_detect s =
+  match s.held with
+  | Some b -> drag_verdict drag_detect true (set_held None s) b
+  | None -> (s, [])
+
+(** val remove_nth : nat -> 'a1 list -> 'a1 list **)
+
+let rec remove_nth i = function
+| [] -> []
+| x :: l' -> (match i with
+              | O -> l'
+              | S j -> x :: (remove_nth j l'))
+
+(** val set_nth : nat -> 'a1 -> 'a1 list -> 'a1 list **)
+
+let rec set_nth i v = function
+| [] -> []
+| x :: l' -> (match i with
+              | O -> v :: l'
+              | S j -> x :: (set_nth j v l'))
+
+(** val drag_step :
+    opts -> ('a1, 'a2) state -> nat -> ('a1, 'a2) state * obs list **)
+
+let drag_step o s i =
+  match nth_error s.drag_procs i with
+  | Some d ->
+    (match d with
+     | DWait ->
+       if s.dragging
+       then ((set_drag_procs (set_nth i DInterrupt s.drag_procs)
+               (set_interrupting true s)), ((ToServer
+              (drag_interrupt_byte :: [])) :: []))
+       else ((set_drag_procs (remove_nth i s.drag_procs) s), [])
+     | DInterrupt ->
+       let cmd = drag_command o s in
+       ((set_drag_procs (set_nth i DCmd s.drag_procs)
+          (set_cur_cmd (Some cmd)
+            (set_skip_cmd true (set_interrupting false s)))), ((ToServer
+       (app cmd drag_cmd_end)) :: []))
+     | DCmd ->
+       ((set_drag_procs (remove_nth i s.drag_procs) (reset_drag s)), []))
+  | None -> (s, [])
+
+(** val handler_exit :
+    ('a1, 'a2) state -> nat -> hphase -> ('a1, 'a2) state **)
+
+let handler_exit s i ph =
+  let s0 = set_handlers (remove_nth i s.handlers) s in
+  (match ph with
+   | HChoosing -> s0
+   | HOwning -> set_transfer false s0)
+
+(** val handler_step :
+    ('a1, 'a2) state -> nat -> haction -> ('a1, 'a2) state * obs list **)
+
+let handler_step s i a =
+  match nth_error s.handlers i with
+  | Some ph ->
+    (match a with
+     | HIo (sv, tm) -> (s, ((ToServer sv) :: ((ToTerm tm) :: [])))
+     | HTakeDrag ->
+       (match ph with
+        | HChoosing -> ((reset_drag s), [])
+        | HOwning -> (s, []))
+     | HRefuse ->
+       (match ph with
+        | HChoosing -> ((handler_exit s i ph), [])
+        | HOwning -> (s, []))
+     | HFailEarly ->
+       (match ph with
+        | HChoosing -> ((handler_exit s i ph), [])
+        | HOwning -> (s, []))
+     | HAccept ->
+       (match ph with
+        | HChoosing ->
+          if s.transfer
+          then ((handler_exit s i ph), [])
+          else ((set_handlers (set_nth i HOwning s.handlers)
+                  (set_transfer true s)), [])
+        | HOwning -> (s, []))
+     | _ ->
+       (match ph with
+        | HChoosing -> (s, [])
+        | HOwning -> ((handler_exit s i ph), [])))
+  | None -> (s, [])
+
+type 'zstate event =
+| EvOut of chunk
+| EvIn of chunk
+| EvDetectOn
+| EvHoldTimer
+| EvDrag of nat
+| EvHandler of nat * haction
+| EvPromptEnd
+| EvZmodem of 'zstate
+
+(** val step :
+    ('a1 -> n list -> (n list * 'a2 option) * 'a1) -> ('a2 -> bool) -> (n
+    list -> bool) -> (n list -> 'a3) -> ('a3 -> n list -> bool * 'a3) -> ('a3
+    -> bool) -> ('a3 -> 'a3) -> (n list -> dres) -> n list -> n list -> (n
+    list -> bool) -> opts -> ('a1, 'a3) state -> 'a3 event -> ('a1, 'a3)
+    state * obs list **)
+
+let step detect trig_prompts zmodem_detect zm_init zm_handle zm_busy zm_stop drag_detect msg_on msg_off is_stop_key o s = function
+| EvOut c ->
+  out_step detect trig_prompts zmodem_detect zm_init zm_handle msg_on msg_off
+    o s c
+| EvIn c -> in_step zm_busy zm_stop drag_detect is_stop_key o s c
+| EvDetectOn -> ((if o.o_drag then set_detect_on true s else s), [])
+| EvHoldTimer -> hold_timer drag_detect s
+| EvDrag i -> drag_step o s i
+| EvHandler (i, a) -> handler_step s i a
+| EvPromptEnd -> ((set_prompt false s), [])
+| EvZmodem z0 ->
+  ((match s.zmodem with
+    | Some _ -> set_zmodem (Some z0) s
+    | None -> s), [])
+
+(** val run :
+    ('a1 -> n list -> (n list * 'a2 option) * 'a1) -> ('a2 -> bool) -> (n
+    list -> bool) -> (n list -> 'a3) -> ('a3 -> n list -> bool * 'a3) -> ('a3
+    -> bool) -> ('a3 -> 'a3) -> (n list -> dres) -> n list -> n list -> (n
+    list -> bool) -> opts -> ('a1, 'a3) state -> 'a3 event list -> ('a1, 'a3)
+    state * obs list **)
+
+let rec run detect trig_prompts zmodem_detect zm_init zm_handle zm_busy zm_stop drag_detect msg_on msg_off is_stop_key o s = function
+| [] -> (s, [])
+| e :: es' ->
+  let (s1, o1) =
+    step detect trig_prompts zmodem_detect zm_init zm_handle zm_busy zm_stop
+      drag_detect msg_on msg_off is_stop_key o s e
+  in
+  let (s2, o2) =
+    run detect trig_prompts zmodem_detect zm_init zm_handle zm_busy zm_stop
+      drag_detect msg_on msg_off is_stop_key o s1 es'
+  in
+  (s2, (app o1 o2))
+
+(** val silent_detect : unit -> n list -> (n list * unit option) * unit **)
+
+let silent_detect d c =
+  ((c, None), d)
+
+(** val corr_run :
+    (path -> kind option) -> (n list -> bool) -> n list -> n list -> opts ->
+    bool -> unit event list -> obs list **)
+
+let corr_run ex zdet msg_on msg_off o detect_on0 es =
+  let s0 = set_detect_on detect_on0 (init ()) in
+  snd
+    (run silent_detect (fun _ -> false) zdet (fun _ -> ()) (fun z0 _ ->
+      (true, z0)) (fun _ -> true) (fun z0 -> z0) (detect_drag_linux ex)
+      msg_on msg_off (fun _ -> false) o s0 es)
